@@ -370,8 +370,10 @@ def evaluate(lines):
     """run ops on both sides -> list of (impl_obs, model_obs, iverdicts, mverdicts)"""
     obs = run_exec(lines)
     # `lensweep` is an executor-only bulk op (C17 thorough): the driver is given a no-op instead
-    ans = run_driver_parallel([("conv cmd 00" if l.startswith("lensweep ") else l) for l in lines],
-                              [(None if (l.startswith("lensweep ") or "sweep " in l[:10]) else o) for l, o in zip(lines, obs)])
+    def exec_only(l):
+        return l.startswith("lensweep ") or l.startswith("repeat ")
+    ans = run_driver_parallel([("conv cmd 00" if exec_only(l) else l) for l in lines],
+                              [(None if (exec_only(l) or "sweep " in l[:10]) else o) for l, o in zip(lines, obs)])
     out = []
     _addr.clear()
     for l, o, a in zip(lines, obs, ans):
@@ -382,6 +384,16 @@ def evaluate(lines):
         if k in ("decsweep", "procsweep"):
             # digest of 65 536 observations on each side; equal digests = every observation equal
             out.append((o, a, {"*sweep": "agree" if o == a else "differ"}, {}))
+            continue
+        if k == "repeat":
+            # executor-only: the same operation `count` times on the same state; every answer must equal
+            # the first one (nothing may depend on the number of calls so far), and must not be a panic
+            # the first call did not show
+            head = o.split(" | ")[0].split()
+            good = len(head) >= 4 and head[0] == "repeated" and head[2] == "0"
+            v = "ok" if good else "fail:depends-on-number-of-calls at " + (head[3] if len(head) > 3 else "?")
+            ap = ACTIVE_PROP[0] or "C10"
+            out.append((o, o, {ap: v}, {ap: "ok"}))
             continue
         if k == "lensweep":
             t = o.split()
@@ -611,6 +623,14 @@ def second_pass(prop, lines, fams, results, rnd):
                     continue
                 for extra_len, fill in ((0, 0x00), (0, 0xFF), (1, 0xA5)):
                     extra.append((" ".join(t[:-1]) + " " + gen.hx([fill] * (n + extra_len)), "exact-fit:" + t[3]))
+                if prop in ("C03", "C16") and rnd.random() < 0.5:
+                    # the buffer already holds this very packet, damaged in its last byte / one other byte
+                    own = bytearray(b[:n])
+                    own[-1] ^= 0xFF
+                    extra.append((" ".join(t[:-1]) + " " + gen.hx(bytes(own) + b[n:]), "own-output-damaged:" + t[3]))
+                    own = bytearray(b[:n])
+                    own[rnd.randrange(n)] ^= 1 << rnd.randrange(8)
+                    extra.append((" ".join(t[:-1]) + " " + gen.hx(bytes(own) + b[n:]), "own-output-damaged:" + t[3]))
                 if prop in ("C04", "C16") and rnd.random() < 0.5:
                     # buffers that are too short: whatever happens, no success with a wrong length
                     for short in (n - 1, n - 2, 9, 8, 4, 0):
